@@ -629,7 +629,11 @@ func (g *G) textAtom(depth int, yy bool) string {
 		return "y"
 	case 10:
 		// unary sign
-		return gen.Pick(g.r, []string{"-", "-", "- ", "+"}) + g.textAtom(depth, yy)
+		a := g.textAtom(depth, yy)
+		if strings.HasPrefix(a, "-") || strings.HasPrefix(a, "+") {
+			a = " " + a // "--" would start a comment (not modelled)
+		}
+		return gen.Pick(g.r, []string{"-", "-", "- ", "+"}) + a
 	default:
 		return gen.Pick(g.r, bareNames)
 	}
